@@ -149,6 +149,7 @@ class ReorgDriver(IndexDriver):
         switch to an equal or shorter branch the server cannot know yet; the daemon is extended."""
         w = self.w
         limit = self.sync_limit(limit)
+        self.disarm()
         w.faults.enabled = False
         w.faults.script = []
         w.sim.stall_p = 0.0
